@@ -282,8 +282,8 @@ theorem applyCmp_ok {w : World} {op : CmpOp} {a b : Val} {ta tb : Ty} (ha : hasT
     simp only [cmpTyOK, Bool.and_eq_true] at hop
     obtain ⟨x, hx⟩ := asNum_of_isNum ha hop.1
     obtain ⟨y, hy⟩ := asNum_of_isNum hb hop.2
-    simp only [applyCmp, hx, hy]
-    exact ⟨_, rfl⟩
+    cases a <;> simp only [asNum, reduceCtorEq] at hx <;> cases b <;> simp only [asNum, reduceCtorEq] at hy <;>
+      simp only [applyCmp, asNum] <;> exact ⟨_, rfl⟩
 
 /-- membership in a well-typed container does not raise -/
 theorem applyContains_ok {w : World} {a b : Val} {ta : Ty} (ha : hasTy w a ta = true)
@@ -979,6 +979,7 @@ def inferTy (w : World) : Val → Ty
     | [] => .objs 0 0
     | i :: _ => match w.objs[i]? with | some o => .objs o.cls is.length | none => .none
   | .none => .none
+  | .set _ => .none
 
 def Term.litCtx (w : World) : Term → LitCtx
   | .var _ => []
